@@ -24,6 +24,7 @@ import (
 	"sort"
 	"strconv"
 	"strings"
+	"time"
 
 	app "github.com/Dash-Industry-Forum/livesim2/cmd/cmaf-ingest-receiver/app"
 	"github.com/Eyevinn/mp4ff/mp4"
@@ -48,6 +49,8 @@ type l1Up struct {
 	// Abort: the connection breaks inside the last fragment of the (multi-fragment) segment: the body
 	// delivers the bytes up to there and then fails; the upload must be refused and must not count
 	Abort bool `json:"abort,omitempty"`
+	// BadTrack: an init upload for a track whose directory cannot be created (a name of 300 bytes)
+	BadTrack bool `json:"badtrack,omitempty"`
 }
 
 type l1ErrReader struct{}
@@ -93,6 +96,7 @@ type l1Scenario struct {
 	Gen    string     `json:"generator"`
 	Shifted bool      `json:"shifted,omitempty"` // incoming numbers differ from time/duration: the channel starts shifted
 	TrexDur int64     `json:"trexdur,omitempty"` // > 0: trex.default_sample_duration of every track's init segment is set to this
+	Grid    bool      `json:"grid,omitempty"`    // shifted channel: once started, every stored segment number n starts at n * duration
 	// filled in for a failure:
 	FailOp  int             `json:"fail_op,omitempty"`
 	Precond map[string]bool `json:"precond,omitempty"`
@@ -105,6 +109,8 @@ type l1Obs struct {
 	Files   [][2]int64 `json:"files"` // (track index, number), sorted
 	Content string     `json:"content,omitempty"`
 	Stored  int64      `json:"stored"` // number of the media file this upload created or rewrote (-1: none)
+	StoredT int64      `json:"stored_t"` // baseMediaDecodeTime in that file
+	Hang    bool       `json:"hang,omitempty"` // the upload was not answered within the watchdog time
 	PubErr  string     `json:"pub_err,omitempty"`
 	Started bool       `json:"started"`
 	NrTr    int64      `json:"nrtr"`
@@ -335,7 +341,10 @@ func l1RunScenario(sc l1Scenario, emit func(l1Obs)) {
 		t := sc.Tracks[u.Track]
 		var body []byte
 		var url string
-		if u.Init {
+		if u.BadTrack {
+			body = initBytes[t.Asset+"/"+t.Init]
+			url = fmt.Sprintf("/upload/%s/%s/init%s", l1Chan, strings.Repeat("x", 300), t.Ext)
+		} else if u.Init {
 			var err error
 			body, err = l1Init(sc, t)
 			if err != nil {
@@ -376,7 +385,14 @@ func l1RunScenario(sc l1Scenario, emit func(l1Obs)) {
 		req.ContentLength = int64(len(body))
 		req.Header.Set("Content-Length", strconv.Itoa(len(body)))
 		rr := httptest.NewRecorder()
-		rcv.Router.ServeHTTP(rr, req)
+		done := make(chan struct{})
+		go func() { rcv.Router.ServeHTTP(rr, req); close(done) }()
+		select {
+		case <-done:
+		case <-time.After(5 * time.Second):
+			emit(l1Obs{Hang: true, Stored: -1})
+			return // the receiver no longer answers: the scenario ends here
+		}
 		rcv.Sync(l1Chan)
 		o := l1Obs{Status: rr.Code}
 		pub, perr := readPub(chDir, &prevMPD)
@@ -455,14 +471,15 @@ func l1RunScenario(sc l1Scenario, emit func(l1Obs)) {
 					o.Content = fmt.Sprintf("stored file %s does not decode to a segment with that sequence number", created[0])
 					break
 				}
+				o.StoredT = int64(f.Segments[0].Fragments[0].Moof.Traf.Tfdt.BaseMediaDecodeTime())
 				if !sc.Shifted && nr != u.Seq {
 					o.Content = fmt.Sprintf("segment %d was stored as %s", u.Seq, created[0])
 				}
-				if t.Media != "text" && nr == u.Seq && !bytes.Equal(got, body) {
+				if t.Media != "text" && nr == u.Seq && !sc.Shifted && !bytes.Equal(got, body) {
 					o.Content = fmt.Sprintf("stored file differs from the uploaded bytes (%d vs %d bytes)", len(got), len(body))
 				}
-				if nr != u.Seq {
-					// renumbered: the media payload must be the uploaded one
+				if nr != u.Seq || sc.Shifted {
+					// renumbered or moved in time: the media payload must be the uploaded one
 					fu, err := mp4.DecodeFile(bytes.NewReader(body))
 					if err == nil && len(f.Segments[0].Fragments) > 0 && len(fu.Segments[0].Fragments) > 0 {
 						a, b := f.Segments[0].Fragments[0].Mdat, fu.Segments[0].Fragments[0].Mdat
@@ -527,7 +544,18 @@ func l1RunAll(c *lib.Ctx, scs []l1Scenario) ([][]l1Obs, error) {
 		cmd.Env = append(os.Environ(), "C17_L1_CHILD="+reqPath)
 		var so, se bytes.Buffer
 		cmd.Stdout, cmd.Stderr = &so, &se
-		runErr := cmd.Run()
+		var runErr error
+		if err := cmd.Start(); err != nil {
+			return nil, err
+		}
+		waitCh := make(chan error, 1)
+		go func() { waitCh <- cmd.Wait() }()
+		select {
+		case runErr = <-waitCh:
+		case <-time.After(180 * time.Second):
+			_ = cmd.Process.Kill()
+			runErr = <-waitCh
+		}
 		cur := -1
 		ended := -1
 		scan := bufio.NewScanner(&so)
@@ -741,6 +769,41 @@ func l1Generate(c *lib.Ctx, rng *rand.Rand) []l1Scenario {
 		}
 		scs = append(scs, sc)
 	}
+	// an encoder that numbers its segments ceil(time/duration) while its times are not multiples of the duration:
+	// no number shift but a time shift (all stored times are moved onto the grid); also with epoch-based times at 90 kHz
+	for k, key := range []string{"v500", "mlvid"} {
+		tr := tracksOf(key)
+		ts := tsOf(tr[0])
+		D := 2 * ts
+		sc := l1Scenario{Kind: 4, Tracks: tr, Tsbd: 16, Gen: "time-shifted", Shifted: true, Grid: true}
+		sc.Ups = append(sc.Ups, l1Up{Init: true, Track: 0})
+		n0 := int64(1000 + rng.Intn(1000))
+		if k == 1 {
+			n0 = 1760000000/2 + int64(rng.Intn(1000)) // seconds since 1970 / 2 s
+		}
+		x := ts/4 + int64(rng.Intn(int(ts/4))) // the segments start x ticks before the grid
+		for m := int64(0); m < 9; m++ {
+			sc.Ups = append(sc.Ups, l1Up{Track: 0, Seq: n0 + m, TNr: n0 + m, T: (n0+m)*D - x, NS: 50, SD: D / 50, Frags: 1, Lay: "trun"})
+		}
+		scs = append(scs, sc)
+	}
+	// an upload that fails for a file-system reason (track directory cannot be created) between ordinary uploads
+	for k := 0; k < 2; k++ {
+		keys := [][]string{{"v500", "a128"}, {"v500", "v800"}}[k]
+		sc := l1Scenario{Kind: 4, Tracks: tracksOf(keys...), Tsbd: 30, Gen: "bad-track-directory"}
+		for i := range keys {
+			sc.Ups = append(sc.Ups, l1Up{Init: true, Track: i})
+		}
+		for m := int64(1); m <= 6; m++ {
+			if m == int64(1+2*k) || m == 5 {
+				sc.Ups = append(sc.Ups, l1Up{BadTrack: true})
+			}
+			for t := range keys {
+				sc.Ups = append(sc.Ups, l1Up{Track: t, Seq: m})
+			}
+		}
+		scs = append(scs, sc)
+	}
 	// a sender that restarts re-sends its init segments in the middle of the run
 	for k, keys := range [][]string{{"v500", "a128"}, {"v500", "v800", "a128"}} {
 		sc := l1Scenario{Kind: 4, Tracks: tracksOf(keys...), Tsbd: 30, Gen: "resent-init"}
@@ -816,7 +879,9 @@ func l1CoqCase(id int, sc l1Scenario, obs []l1Obs) string {
 	var ops, os_, trs []string
 	for i := range obs {
 		u := sc.Ups[i]
-		if u.Init {
+		if u.BadTrack {
+			ops = append(ops, "OCRefused")
+		} else if u.Init {
 			ops = append(ops, fmt.Sprintf("OCInit %d", u.Track))
 		} else {
 			dts, dur := l1Truth(sc, u)
@@ -833,6 +898,10 @@ func l1CoqCase(id int, sc l1Scenario, obs []l1Obs) string {
 		o := obs[i]
 		if o.Died != "" {
 			os_ = append(os_, "ObsPanic "+lib.CoqString(o.Died))
+			continue
+		}
+		if o.Hang {
+			os_ = append(os_, "ObsPanic \"upload not answered\"")
 			continue
 		}
 		l := append([]int64{int64(o.Status)}, o.Pub...)
@@ -974,9 +1043,20 @@ func l1Oracle(c *lib.Ctx, id string, sc l1Scenario, obs []l1Obs) {
 			fail(i, "process-died:"+o.Died, "the receiver process died: panic in "+o.Died+" in the channel goroutine")
 			return
 		}
+		if o.Hang {
+			fail(i, "upload-hangs", "the upload was not answered within 5 s: the receiver no longer processes uploads")
+			return
+		}
 		if o.PubErr != "" {
 			fail(i, "mpd:incomplete-document", o.PubErr)
 			return
+		}
+		if u.BadTrack {
+			if o.Status >= 200 && o.Status < 300 {
+				fail(i, "bad-track-accepted", fmt.Sprintf("an upload for a track whose directory cannot be created was answered %d", o.Status))
+				return
+			}
+			continue
 		}
 		if u.Abort {
 			// the connection broke inside the body: the upload must be refused and must not count as a segment
@@ -1028,15 +1108,28 @@ func l1Oracle(c *lib.Ctx, id string, sc l1Scenario, obs []l1Obs) {
 				return
 			}
 			if sc.Shifted && i > 0 && obs[i-1].MaxBuf > 0 && nr != u.timeNr() {
+				if ts := tsOf(sc.Tracks[u.Track]); sc.Grid && u.T > (1<<63-1)/ts {
+					pre["time_shift_int64_overflow"] = true // time * timescale does not fit into int64
+				}
 				fail(i, "stored-under-wrong-number", fmt.Sprintf("segment with time %d (number %d of the channel's numbering) of %s was stored as %d", u.T, u.timeNr(), sc.Tracks[u.Track].Name, nr))
 				return
 			}
 			if truth[sc.Tracks[u.Track].Name] == nil {
 				truth[sc.Tracks[u.Track].Name] = map[int64][2]int64{}
 			}
-			if td, dd := l1Truth(sc, u); true {
-				if _, dup := truth[sc.Tracks[u.Track].Name][nr]; !dup || !sc.Shifted {
-					truth[sc.Tracks[u.Track].Name][nr] = [2]int64{td, dd}
+			// the start time of the stored segment is what its file says (a shifted channel rewrites it), the duration
+			// is the uploaded segment's
+			if _, dd := l1Truth(sc, u); true {
+				truth[sc.Tracks[u.Track].Name][nr] = [2]int64{o.StoredT, dd}
+				if !sc.Shifted {
+					if td, _ := l1Truth(sc, u); td != o.StoredT {
+						fail(i, "stored-content", fmt.Sprintf("segment %d of %s was uploaded with time %d and is stored with time %d", nr, sc.Tracks[u.Track].Name, td, o.StoredT))
+						return
+					}
+				}
+				if sc.Grid && i > 0 && obs[i-1].MaxBuf > 0 && o.StoredT != nr*dd {
+					fail(i, "stored-time-off-grid", fmt.Sprintf("segment %d of %s (duration %d) of a shifted channel is stored with time %d, not %d", nr, sc.Tracks[u.Track].Name, dd, o.StoredT, nr*dd))
+					return
 				}
 			}
 			if m, ok := maxSeq[u.Track]; ok && nr > m+1 && !(sc.Shifted && obs[i-1].MaxBuf > 0 && !startedBefore[u.Track]) {
@@ -1132,8 +1225,8 @@ func l1Oracle(c *lib.Ctx, id string, sc l1Scenario, obs []l1Obs) {
 					}
 				}
 			}
-			// the listed start times and durations are those of the uploaded segments (known from how they were made)
-			if !sc.Shifted {
+			// the listed start times and durations are those of the stored segments
+			{
 				for ai, reps := range p.Reps {
 					for k, e := range expandTL(p.TL[ai]) {
 						nr := p.First + int64(k)
